@@ -254,7 +254,7 @@ def attach(owner, attr, monitor, pre=None, post=None, method=True, capture_stdou
             ctx.stdout = buf.getvalue()
             if ctx.stdout:
                 sys.stdout.write(ctx.stdout)
-        if isinstance(ctx.exc, (KeyboardInterrupt, SystemExit, StepBudgetExceeded)) and ctx.depth > 0:
+        if isinstance(ctx.exc, (KeyboardInterrupt, SystemExit)):
             raise ctx.exc
         if not skip and post is not None:
             try:
